@@ -561,6 +561,25 @@ def sc_reduction_premap(n, m, c, s, j, j2, e):
     sx.require(mlt == sx.ite(j2 == e, 2, 0), "wrong-reduction-group", f"x[{j},{j2}] enters out[{e}] {mlt} times (expected twice: x*x)")
 
 
+def sc_gather_many_blocks(c, k, e):
+    """x[idx] with an integer-array index that takes ONE element from each of k blocks (k up to 6): one output chunk is assembled from
+    many input blocks -- the selection's projection counts one extra input chunk however many blocks feed an output chunk"""
+    import numpy as np
+
+    B._start()
+    cv, kv = sx.conc(c), sx.conc(k)
+    sx.assume(kv <= cv)  # the k gathered elements form one output chunk
+    n = cv * kv
+    x = G.stub_array("x", (n,), (cv,))
+    idx = np.asarray([j * cv for j in range(kv)])
+    out = x[idx]
+    B._declared_ok(out, (kv,))
+    ev = sx.conc(e)
+    sx.assume(ev < kv)
+    t, _ = B._elem(out, (ev,))
+    B._expect(t, ("elem", "x", (ev * cv,)))
+
+
 def _D(N):
     """extent bound of the 2-d scenarios: 3 in the quick tier, 5 in the thorough tier"""
     return 3 if N <= 6 else 5
@@ -575,7 +594,7 @@ SCENARIOS = {
     "nanmean[axis0-2d]": (sc_nanmean, lambda N: [("n", 1, N - 1), ("m", 1, 2), ("c", 1, N - 1), ("c2", 1, 2), ("s", 2, 3), ("j", 0, N - 1), ("j2", 0, 1), ("e", 0, 1)]),
     "apply_gufunc[core-dim]": (sc_gufunc_core, lambda N: [("n", 1, N), ("m", 1, 3), ("c", 1, N), ("e", 0, N), ("j", 0, N), ("j2", 0, 3)]),
     "apply_gufunc[two-args,broadcast]": (sc_gufunc_two, lambda N: [("n", 1, _D(N)), ("m", 1, N - 1), ("c", 1, _D(N)), ("c2", 1, N - 1), ("e", 0, _D(N)), ("e2", 0, N)]),
-    "rechunk[2d,small-memory]": (sc_rechunk_2d, lambda N: [("n", 1, _D(N)), ("m", 1, _D(N)), ("c", 1, _D(N)), ("c2", 1, _D(N)), ("d", 1, _D(N)), ("d2", 1, _D(N)), ("M", 0, 70), ("mn", 0, 6), ("irr", 0, 1), ("e", 0, _D(N) - 1), ("e2", 0, _D(N) - 1)]),
+    "rechunk[2d,small-memory]": (sc_rechunk_2d, lambda N: [("n", 1, _D(N)), ("m", 1, _D(N) - 1), ("c", 1, _D(N)), ("c2", 1, _D(N) - 1), ("d", 1, _D(N)), ("d2", 1, _D(N) - 1), ("M", 0, 50), ("mn", 0, 4), ("irr", 0, 1), ("e", 0, _D(N) - 1), ("e2", 0, _D(N) - 2)]),
     "take[axis,2d]": (sc_take_axis, lambda N: [("n", 1, _D(N)), ("m", 1, 2), ("c", 1, _D(N)), ("c2", 1, 2), ("ax", 0, 1), ("i0", 0, 2), ("i1", 0, 2), ("e", 0, 2), ("p", 0, 1)]),
     **{f"index[2d,{nm}]": (_kind(sc_index_2d_mixed, k), lambda N: [("n", 1, _D(N)), ("m", 1, _D(N)), ("c", 1, _D(N)), ("c2", 1, _D(N)), ("a", 0, 2), ("st", 1, 2), ("e", 0, _D(N) - 1), ("e2", 0, _D(N) - 1)]) for k, nm in enumerate(_IDX_KINDS)},
     "expand_dims/squeeze[negative-axes]": (sc_squeeze_expand_neg, lambda N: [("n", 1, N), ("c", 1, N), ("k", 0, 2), ("e", 0, N)]),
@@ -589,6 +608,7 @@ SCENARIOS = {
     "tensordot[values]": (sc_tensordot_values, lambda N: [("n", 1, 2), ("k", 1, _D(N) + 1), ("m", 1, 2), ("c", 1, 2), ("ck", 1, _D(N) + 1), ("cm", 1, 2), ("e0", 0, 1), ("e1", 0, 1), ("j", 0, _D(N)), ("r", 0, 1)]),
     "map_blocks[broadcast,size-1-array]": (sc_map_blocks_broadcast, lambda N: [("n", 1, _D(N) + 1), ("m", 1, _D(N)), ("c", 1, _D(N) + 1), ("c2", 1, _D(N)), ("first", 0, 1), ("e", 0, _D(N)), ("e2", 0, _D(N) - 1)]),
     "reduction[user-func-is-a-map]": (sc_reduction_premap, lambda N: [("n", 1, N + 3), ("m", 1, 2), ("c", 1, N + 3), ("s", 2, 4), ("j", 0, N + 2), ("j2", 0, 1), ("e", 0, 1)]),
+    "index[int-array,one-element-per-block]": (sc_gather_many_blocks, lambda N: [("c", 1, 6), ("k", 1, 6), ("e", 0, 5)]),
     "creation-leaves": (sc_full_leaf, lambda N: [("n", 1, N), ("c", 1, N), ("k", 0, 3), ("e", 0, N)]),
 }
 # only in the thorough tier (same construction path as min[2d] with another block function)
